@@ -24,9 +24,16 @@ PROPS["C18"] = dict(
          "struct{*state} by value (comparable); for one input or both, 10% of the rapid draws put one and the same kind on both inputs (sessions: on every leaf), "
          "and exhaustive part 3 runs every ordered pair of kinds with a value kind on at least one side (same type on both sides included) x all input pairs over {1,2} of "
          "length 0..2 x 5 selectors x every program over {h,n,r} to depth 4 (thorough 5), pairs with a Reset-less source under the same first-Reset-is-last reduction. Sources that revive after "
-         "reporting exhaustion are not generated. non-trivial = the selector decided a tie between equal heads, or exactly one "
+         "reporting exhaustion are not generated. TRANSIENT RESET FAILURES (golibs.Reseter: 'Result may indicate about an error during the reset'): any source kind that has a Reset method can be put "
+         "behind a wrapper whose first k Reset calls return an error and leave the source where it is, while every later call rewinds it (k 1..3; the error is a library class - ErrUnimplemented, ErrDataLoss, ErrInternal, bare or "
+         "wrapped with %w - io.EOF or a plain error), on input 1, input 2 or both (one rapid case in five; one session round in five on 1..2 leaves or on every leaf, below inner mixers included; exhaustive part 4: failure plans "
+         "(1,0) (0,1) (1,1) (2,0) (0,2) (2,1) x {ErrUnimplemented, plain error} x source pairs slice/slice, slice/disparity, valcmp/slice x all input pairs over {1,2} of length 0..2 x 5 selectors x every program over "
+         "{h,n,r} to depth 4 (thorough 5) that contains a Reset). A Reset of the mixer made while some source still has a failure to deliver is not judged (neither its result nor which sources it asked), and from then until the "
+         "next Reset made when NO source has a failure left the HasNext/Next calls of the program are executed but not compared and the selector does not check its arguments: the state after a failed Reset is undocumented. "
+         "A Reset made when no source has a failure left is a Reset of two resettable inputs: it must return nil and restart the merge completely, whatever was read since the failed one; if the program ends in the unjudged "
+         "state the harness calls Reset until that point is reached (every Reset of the mixer passes at least one pending failure on; bounded at 16 / 64 calls, a tree that never gets there is not judged), then the full drain follows. non-trivial = the selector decided a tie between equal heads, or exactly one "
          "input is empty, or a successful Reset happened midway / on a loaded look-ahead / after the end, or HasNext was "
-         "called twice in a row, or a lying final HasNext was consumed, or Init was called again while a look-ahead was pending; distinct = FNV hash of the whole case. "
+         "called twice in a row, or a lying final HasNext was consumed, or Init was called again while a look-ahead was pending, or a Reset accepted by both sources followed a failed one; distinct = FNV hash of the whole case. "
          "SESSIONS (units sessions_*): 'any two input iterators' includes a Mixer as an input (mixer_test.go merges a mixer with a slice) and iterators "
          "created after other iterators were used and closed, so a second case type is a HISTORY of 1..10 rounds in one process: each round builds a "
          "merge tree over 2..8 fresh leaves (any binary tree shape, every mixer with the round's selector, leaf kinds as above), runs a "
@@ -46,10 +53,11 @@ PROPS["C18"] = dict(
          "every two-round history of (ab or (ab)c over fixed slices; drained / abandoned untouched / abandoned after 'hn'; 4 close disciplines; closed "
          "before or after the later round) x (every tree shape over 2..4 slice leaves x all assignments of the sequences over {1,2} of length 0..1 "
          "(thorough 0..2 for 2 leaves) x selectors (quick, 4 leaves: <= and > only) x programs over {h,n,r} to depth 3 (thorough 4 for 2..3 leaves)). session non-trivial = a round opened after an earlier "
-         "one was closed, or two trees alive at once, or a mixer over two mixers, or three levels of mixers, or a tie / refused Reset in a nested tree",
+         "one was closed, or two trees alive at once, or a mixer over two mixers, or three levels of mixers, or a tie / refused Reset / accepted Reset after a failed one in a nested tree",
     assumptions=["reference merge written from the C18 statement: head of input 1 is emitted iff input 2 is exhausted or "
                  "(input 1 is not exhausted and selector(head1, head2)); when Next returns ok=false its value is not compared",
-                 "Reset with two resettable sources is required to succeed (the sources' own Reset returns nil)",
+                 "Reset with two resettable sources is required to succeed whenever the sources' own Reset calls return nil at that moment - also when an earlier Reset failed because a source's Reset returned an error then "
+                 "(nothing lets a Mixer remember an earlier failure: 'Reset allows to reset the mixer internals and retry underlying iterators')",
                  "'any selector' includes selectors that are only defined on real elements: consulting the selector with anything "
                  "but the two current heads is reported even when the emitted sequence is unaffected",
                  "Init on a used Mixer value must leave nothing of the previous inputs behind (Init 'initializes the mixer')",
